@@ -155,9 +155,7 @@ def wav_table(rep, rule="W-buf"):
             except BadConversion:
                 pass
             except Undecided as e:
-                if type(e).__name__ == "NeedSplit":
-                    raise
-                out.append((name, True, "", str(e)))
+                out.append((name, False, "", e if type(e).__name__ == "NeedSplit" else str(e)))
                 continue
             if conv.bad:
                 out.append((name, False, "a time is converted to a sample position by %s, not by round(time * frameRate): the position can be off by one sample (or fall inside a sample)" % ", ".join(sorted(set(conv.bad))), None))
@@ -283,3 +281,238 @@ def pack_unpack(rep, rule="F3-pack"):
                 continue
             rep.check(not problems, rule, "audio.convertToBytes/convertFromBytes", "width %d, %d sample(s)" % (width, nsamp), ok="little-endian, one '%s' per sample, values unchanged" % code, bad="; ".join(problems))
     rep.floor(rule, 8)
+
+
+class WaveWorld:
+    """wave.open as a recorder: read handles seek/read an abstract file, write handles record parameters and frames."""
+
+    def __init__(self, n=None):
+        self.log = []
+        self.n = n if n is not None else Lin.var("n")
+        self.pos = None
+
+    def open(self, I, a, k):
+        path = a[0]
+        mode = a[1] if len(a) > 1 else k.get("mode", "r")
+        world = self
+        if isinstance(mode, str) and "w" in mode:
+            rec = {"path": path, "params": None, "frames": None}
+            world.log.append(("open-w", rec))
+            return MockObj({
+                "setparams": PyFunc(lambda I_, p: rec.__setitem__("params", p)),
+                "writeframes": PyFunc(lambda I_, f: rec.__setitem__("frames", f)),
+                "close": PyFunc(lambda I_: None),
+            }, "wave writer")
+        world.log.append(("open-r", path))
+
+        def setpos(I_, p):
+            world.pos = p
+            world.log.append(("setpos", p))
+
+        def readframes(I_, c):
+            start = world.pos if world.pos is not None else Lin.var("<wherever the previous read stopped>")
+            world.log.append(("readframes", start, c))
+            world.pos = None
+            return BufVal([("file", start.scale(W), (start + c).scale(W))])
+        return MockObj({
+            "getparams": PyFunc(lambda I_: Tup([Lin.num(1), Lin.num(W), Lin.num(FR), world.n, "NONE", "not compressed"])),
+            "setpos": PyFunc(setpos), "readframes": PyFunc(readframes), "close": PyFunc(lambda I_: None),
+        }, "wave reader")
+
+
+def written_ok(I, rec, first, count):
+    """None if the write record holds file[first : first+count] with the source's parameters; else a description."""
+    p = rec["params"]
+    if p is None or rec["frames"] is None:
+        return "the output file gets no parameters / no frames"
+    items = I.iterate(p)
+    if len(items) != 6 or not (items[0].same(Lin.num(1)) and items[1].same(Lin.num(W)) and items[2].same(Lin.num(FR)) and items[4] == "NONE" and items[5] == "not compressed"):
+        return "the output file's parameters %r are not the source's (channels, sample width, frame rate, compression)" % (items,)
+    f = rec["frames"]
+    want = [("file", first.scale(W), (first + count).scale(W))]
+    if not isinstance(f, BufVal) or not segs_equal(I, f.segs, want):
+        return "the frames written are %s, expected %s" % (show(f.segs) if isinstance(f, BufVal) else f, show(want))
+    return None
+
+
+def wiring(rep, rule="K-wiring"):
+    """extractSubwav and splitAudioOnTier interpreted with wave.open, openTextgrid, Textgrid.save and os.path.exists
+    as recorders: one output file per entry, holding the source frames from round(rate*start) for round(rate*(end -
+    start)) frames with the source's parameters; the cropped textgrid of entry i is crop(start_i, end_i, mode, True)
+    (mode strict iff noPartialIntervals) and is saved next to it; entries labelled as silence are skipped."""
+    from ..absint import label_var
+    from ..tables import build_tier, read_tier
+    from .tgops import build_tg
+
+    idx = common.ctx()
+    st0 = State([("0", Lin.num(0))], [0])
+    ta, tb = Lin.var("ta"), Lin.var("tb")
+    # ---- extractSubwav
+    ex = idx.get("audio:extractSubwav")
+    rep.functions.add(ex.qual)
+    rep.functions.add(idx.get("AbstractWav.outputFrames").qual)
+    world = WaveWorld()
+    conv = Conv({"ta": "ia", "tb": "ib"}, allow=[((tb - ta).scale(FR), "cnt")])
+    I = Interp(idx, st0, overrides=default_overrides())
+    I.builtin_overrides = dict(conv.overrides(), **{"wave.open": world.open})
+    try:
+        I.call_function(ex, ["in.wav", "out.wav", ta, tb], {})
+        writes = [r for k_, r in [(x[0], x[1]) for x in world.log if x[0] == "open-w"]]
+        reads = [x for x in world.log if x[0] in ("setpos", "readframes")]
+        problems = []
+        if [x[0] for x in reads] != ["setpos", "readframes"]:
+            problems.append("file operations %s, expected one seek and one read" % [x[0] for x in reads])
+        elif len(writes) != 1 or writes[0]["path"] != "out.wav":
+            problems.append("output files %s, expected exactly out.wav" % [w_["path"] for w_ in writes])
+        else:
+            d_ = written_ok(I, writes[0], Lin.var("ia"), Lin.var("cnt"))
+            if d_:
+                problems.append(d_)
+        rep.check(not problems, rule, ex.short, "extractSubwav(in, out, ta, tb)", ok="out.wav holds the frames read from round(rate*ta) for round(rate*(tb-ta)) frames, with the source's parameters", bad="; ".join(problems), loc=ex.loc)
+    except BadConversion as e:
+        rep.refuted(rule, ex.short, "extractSubwav(in, out, ta, tb)", "a time is converted by %s, not by round(frameRate * time)" % e, loc=ex.loc)
+    except PyRaise as e:
+        rep.refuted(rule, ex.short, "extractSubwav(in, out, ta, tb)", "raises %s" % e.name, loc=ex.loc)
+    except Undecided as e:
+        rep.undecided(rule, ex.short, "extractSubwav(in, out, ta, tb)", str(e))
+
+    # ---- splitAudioOnTier
+    sp = idx.get("praatio_scripts:splitAudioOnTier")
+    rep.functions.add(sp.qual)
+    at = Atoms()
+    at.const(0, "0")
+    names = ["s1", "e1", "s2", "e2", "M"]
+    for nme in names:
+        at.var(nme)
+    at.rel("0", "<=", "s1"); at.rel("s1", "<", "e1"); at.rel("e1", "<=", "s2"); at.rel("s2", "<", "e2"); at.rel("e2", "<=", "M")
+    s1, e1, s2, e2, M = [Lin.var(x) for x in names]
+    for ixname in ("i1", "i2", "j1", "j2", "c1", "c2"):
+        at.fact_le(Lin.num(0), Lin.var(ixname))  # sample positions and counts are non-negative
+    tr = TableRun(rep, rule, sp.short, sp.loc)
+
+    def rows(st):
+        out = []
+        for no_partial in (False, True):
+            for tgflag in (False, True, "other"):
+                for silence in (None, "sil"):
+                    mode = (no_partial, tgflag, silence)
+                    world = WaveWorld()
+                    saves, crops = [], []
+                    conv = Conv({"s1": "i1", "s2": "i2", "e1": "j1", "e2": "j2"}, allow=[((e1 - s1).scale(FR), "c1"), ((e2 - s2).scale(FR), "c2")])
+                    I = Interp(idx, st, overrides=default_overrides())
+                    labels = [label_var("l1"), "sil" if silence else label_var("l2")]
+                    ents = [(s1, e1, labels[0]), (s2, e2, labels[1])]
+
+                    def open_tg(I_, a, k):
+                        tg, objs = build_tg(I_, [("interval", "words", ents), ("point", "other", [(s1, label_var("p1"))])], Lin.num(0), M)
+                        crop_fn = I_.getattr(tg, "crop")
+
+                        def crop(I2, *ca, **ck):
+                            crops.append(list(ca))
+                            return I2.call_value(crop_fn, list(ca), ck)
+                        tg.attrs["crop"] = PyFunc(crop)
+                        return tg
+
+                    def save(I_, a, k):
+                        saves.append((a[0], a[1:], k))
+                        return None
+                    ov = dict(default_overrides())
+                    ov["textgrid.openTextgrid"] = open_tg
+                    ov["Textgrid.save"] = save
+                    I.overrides = ov
+                    I.builtin_overrides = dict(conv.overrides(), **{"wave.open": world.open, "os.path.exists": lambda I_, a, k: True, "os.mkdir": lambda I_, a, k: None, "os.makedirs": lambda I_, a, k: None})
+                    I.prints = 0
+                    try:
+                        ret = I.call_function(sp, ["rec.wav", "rec.TextGrid", "words", "outdir", tgflag, None, no_partial, silence], {})
+                    except BadConversion as e:
+                        out.append((mode, False, "a time is converted by %s, not by round(frameRate * time)" % e, None))
+                        continue
+                    except PyRaise as e:
+                        out.append((mode, False, "raises %s" % e.name, None))
+                        continue
+                    except Undecided as e:
+                        out.append((mode, False, "", e if type(e).__name__ == "NeedSplit" else str(e)))
+                        continue
+                    kept = [0] if silence else [0, 1]
+                    exp = [(ents[i], (Lin.var("i%d" % (i + 1)), Lin.var("c%d" % (i + 1)))) for i in kept]
+                    writes = [x[1] for x in world.log if x[0] == "open-w"]
+                    problem = None
+                    if len(writes) != len(exp):
+                        problem = "%d audio files written for %d non-silent entries" % (len(writes), len(exp))
+                    else:
+                        paths = [w_["path"] for w_ in writes]
+                        if len(set(map(str, paths))) != len(paths):
+                            problem = "two entries are written to the same file %s" % paths
+                        for w_, (ent, (first, cnt)) in zip(writes, exp):
+                            d_ = written_ok(I, w_, first, cnt)
+                            if d_ and not problem:
+                                problem = "entry %r: %s" % (ent[2], d_)
+                    if not problem:
+                        n_tg = len(exp) if tgflag is not False else 0
+                        if len(saves) != n_tg or len(crops) != n_tg:
+                            problem = "%d cropped textgrids saved (%d crops) for %d entries with outputTGFlag=%r" % (len(saves), len(crops), len(exp), tgflag)
+                        else:
+                            want_mode = "strict" if no_partial else "truncated"
+                            for c, (ent, _) in zip(crops, exp):
+                                ok = len(c) == 4 and isinstance(c[0], Lin) and c[0].same(ent[0]) and c[1].same(ent[1]) and c[2] == want_mode and c[3] is True
+                                if not ok and not problem:
+                                    problem = "entry %r is cropped with %r, expected (start, end, %r, True): the paired textgrid must span [0, end-start]" % (ent[2], c, want_mode)
+                            for (tgobj, rest, kw) in saves:
+                                tnames = [str(x) for x in I.iterate(I.getattr(tgobj, "tierNames"))]
+                                if tgflag == "other" and tnames != ["other"] and not problem:
+                                    problem = "with outputTGFlag='other' the saved textgrid holds the tiers %s" % tnames
+                                if tgflag is True and tnames != ["words", "other"] and not problem:
+                                    problem = "the saved textgrid holds the tiers %s" % tnames
+                    out.append((mode, problem is None, problem or "", None))
+        return out
+
+    run_states(at, rows, tr)
+    tr.done("2 generic entries x noPartialIntervals x outputTGFlag in {False, True, tier name} x silence label")
+
+
+def generators(rep, rule="K-wiring"):
+    """generateSilence / generateSineWave produce round(rate x duration) samples (struct.pack as a recorder)."""
+    idx = common.ctx()
+    gen_cls = idx.cls("AudioGenerator")
+    st = State([("0", Lin.num(0))], [0])
+    d = Lin.var("d")
+    # silence: symbolic duration
+    sil = idx.get("AudioGenerator.generateSilence")
+    rep.functions.add(sil.qual)
+    conv = Conv({"d": "nd"})
+    I = Interp(idx, st, overrides=default_overrides())
+    I.builtin_overrides = dict(conv.overrides(), **{"struct.pack": lambda I_, a, k: BufVal([("zero", Lin.num(0), Lin.num(W))])})
+    try:
+        g = I.instantiate(gen_cls, [Lin.num(W), Lin.num(FR)], {})
+        r = I.call_value(I.getattr(g, "generateSilence"), [d], {})
+        ok = isinstance(r, BufVal) and r.length().same(Lin.var("nd").scale(W))
+        rep.check(ok, rule, sil.short, "generateSilence(d)", ok="round(rate x duration) zero samples", bad="silence of duration d is %r, expected round(rate*d) samples of %d bytes" % (r, W), loc=sil.loc)
+    except BadConversion as e:
+        rep.refuted(rule, sil.short, "generateSilence(d)", "the number of samples is %s, not round(frameRate * duration)" % e, loc=sil.loc)
+    except PyRaise as e:
+        rep.refuted(rule, sil.short, "generateSilence(d)", "raises %s" % e.name, loc=sil.loc)
+    except Undecided as e:
+        rep.undecided(rule, sil.short, "generateSilence(d)", str(e))
+    # sine: concrete exemplar durations chosen so that round, int, floor and ceil all differ somewhere
+    sine = idx.get("AudioGenerator.generateSineWave")
+    rep.functions.add(sine.qual)
+    bad = []
+    for dur, want in ((Fraction(45, 100), 4), (Fraction(3, 10), 2), (Fraction(1, 2), 4), (Fraction(0), 0)):
+        seen = {}
+
+        def pack(I_, a, k):
+            seen["n"] = len(a) - 1
+            return "<bytes>"
+        I = Interp(idx, st, overrides=default_overrides())
+        I.builtin_overrides = {"struct.pack": pack}
+        try:
+            g = I.instantiate(gen_cls, [Lin.num(W), Lin.num(FR)], {})
+            I.call_value(I.getattr(g, "generateSineWave"), [Lin.num(dur).as_float(), Lin.num(2)], {})
+            if seen.get("n") != want:
+                bad.append("duration %s at rate %d gives %r samples, expected %d" % (float(dur), FR, seen.get("n"), want))
+        except PyRaise as e:
+            bad.append("duration %s raises %s" % (float(dur), e.name))
+        except Undecided as e:
+            rep.undecided(rule, sine.short, "generateSineWave", str(e))
+            return
+    rep.check(not bad, rule, sine.short, "generateSineWave(0.45 | 0.3 | 0.5 | 0 s at rate 8)", ok="round(rate x duration) samples", bad="; ".join(bad), loc=sine.loc)
